@@ -23,6 +23,9 @@ func C08(ctx *core.Ctx, r *core.Report) {
 	c08SegmentEquality(ctx, r)
 	// Find walks with requests marked as navigation; every read filter lets those through
 	c07NavigationExempt(ctx, r, registeredConstraints(ctx, r))
+	c08CursorClimbs(ctx, r)
+	c08NavigationBeforeState(ctx, r)
+	c08KeyTextVerbatim(ctx, r)
 }
 
 func callsByName(f *ssa.Function, name string) []ssa.CallInstruction {
